@@ -2200,7 +2200,8 @@ class Spectrum(numpy.ma.masked_array):
             # Assign result using the appropriate weighting
             resamp[tuple(counts)] += prob*combined[derived]
 
-        resamp = Spectrum(resamp, mask_corners=mask_corners)
+        resamp = Spectrum(resamp, mask_corners=mask_corners,
+                          pop_ids=self.pop_ids)
         if not original_folded:
             return resamp
         else:
